@@ -17,6 +17,7 @@
 (*             closed) and answers the caller                              *)
 (*   hexit     the handler parked at h.closing is released: it deregisters *)
 (*             its connection if (and only if) it is still the stored one  *)
+(*   abandon   the connect() call of a dial under way is dropped           *)
 (*   disconnect / subscribe   the API calls                                *)
 (*                                                                         *)
 (* What the transport does by itself - TLS finishing on the listener, the  *)
@@ -64,6 +65,7 @@ AutoEnabled ==
 Controlled ==
   \/ \E pr \in Pairs : Dial(pr[1], pr[2]) /\ Log("dial", pr[1], pr[2], Len(att) + 1)
   \/ \E k \in Gids :
+        \/ AbandonCall(k) /\ Log("abandon", k, att[k].d, "-")
         \/ Admit(k)  /\ Log("admit", k, att[k].l, "admit")
         \/ Reject(k) /\ Log("admit", k, att[k].l, "reject")
   \/ \E n \in Nodes :
